@@ -381,10 +381,425 @@ theorem skipTrailingSemis_le (k : Cfg) : ∀ (n : Nat) (cur : Option (List Char)
         omega
     · simp only [Except.ok.injEq, Prod.mk.injEq] at h; rw [← h.2]; exact Nat.le_refl _
 
+/-! ### parenthesis balance of an accepted tree statement -/
+
+/-- nesting depth after reading a token sequence from depth `d`; `none` when a closing parenthesis has no partner -/
+def depthAux : List (List Char) → Nat → Option Nat
+  | [], d => some d
+  | t :: ts, d =>
+    if t == lpar then depthAux ts (d + 1)
+    else if t == rpar then (if d == 0 then none else depthAux ts (d - 1))
+    else depthAux ts d
+
+theorem depthAux_append (a b : List (List Char)) : ∀ d, depthAux (a ++ b) d = (depthAux a d).bind (depthAux b) := by
+  induction a with
+  | nil => intro d; simp [depthAux]
+  | cons t ts ih =>
+    intro d
+    simp only [List.cons_append, depthAux]
+    split
+    · exact ih _
+    · split
+      · split
+        · simp
+        · exact ih _
+      · exact ih _
+
+theorem depth_snoc (pre : List (List Char)) (c : List Char) (n : Nat) (h : depthAux pre 0 = some n) :
+    depthAux (pre ++ [c]) 0 =
+      if c == lpar then some (n + 1) else if c == rpar then (if n == 0 then none else some (n - 1)) else some n := by
+  rw [depthAux_append, h]
+  simp only [Option.bind_some, depthAux]
+
+/-- the invariant of the machine: all tokens before the current one are accounted for in `nesting`,
+and `nesting` counts exactly the suspended frames (plus the open frame while its children are read) -/
+def Inv (st : NState) : Prop :=
+  ∃ pre, st.trace = pre ++ [st.cur] ∧ depthAux pre 0 = some st.nesting ∧
+    st.nesting = st.stack.length + (if st.phase = .lab then 0 else 1)
+
+theorem inv_mk (s' : NState) (tr : List (List Char)) (n : Nat)
+    (htr : s'.trace = tr ++ [s'.cur]) (hd : depthAux tr 0 = some n) (hn : s'.nesting = n)
+    (hrel : n = s'.stack.length + (if s'.phase = .lab then 0 else 1)) : Inv s' :=
+  ⟨tr, htr, by rw [hn]; exact hd, by rw [hn]; exact hrel⟩
+
+theorem pyFloatOk_lpar : pyFloatOk lpar = false := by decide
+theorem pyFloatOk_rpar : pyFloatOk rpar = false := by decide
+
+theorem inv_stepKidsNonComma (k : Cfg) (s1 st' : NState) (hinv : Inv s1) (hph : s1.phase ≠ .lab) (hcur : s1.cur ≠ comma)
+    (h : stepKidsNonComma k s1 = .next st') : Inv st' := by
+  obtain ⟨pre, htr, hd, hrel⟩ := hinv
+  have hrel' : s1.nesting = s1.stack.length + 1 := by simpa [hph] using hrel
+  unfold stepKidsNonComma at h
+  split at h
+  · rename_i hr
+    have hr' : s1.cur = rpar := by simpa using hr
+    obtain ⟨t, q, rest, hn, hcont⟩ := advance_next k _ _ st' h
+    simp only [StepRes.next.injEq] at hcont
+    subst hcont
+    refine inv_mk _ s1.trace (s1.nesting - 1) (by simp) ?_ (by simp) (by simp; omega)
+    rw [htr, depth_snoc pre _ _ hd, hr']
+    have : (rpar == lpar) = false := by decide
+    simp [this]; omega
+  · split at h
+    · rename_i hr hl
+      have hl' : s1.cur = lpar := by simpa using hl
+      obtain ⟨t, q, rest, hn, hcont⟩ := advance_next k _ _ st' h
+      simp only [StepRes.next.injEq] at hcont
+      subst hcont
+      refine inv_mk _ s1.trace (s1.nesting + 1) (by simp) ?_ (by simp) (by simp; omega)
+      rw [htr, depth_snoc pre _ _ hd, hl']
+      simp
+    · simp only [StepRes.next.injEq] at h
+      subst h
+      exact ⟨pre, htr, hd, by simp; omega⟩
+
+theorem inv_step (k : Cfg) (st st' : NState) (hinv : Inv st) (h : step k st = .next st') : Inv st' := by
+  unfold step at h
+  split at h
+  · -- kids
+    rename_i hph
+    split at h
+    · rename_i hc
+      have hc' : st.cur = comma := by simpa using hc
+      obtain ⟨pre, htr, hd, hrel⟩ := hinv
+      obtain ⟨t, q, rest, hn, hcont⟩ := advance_next k _ _ st' h
+      simp only [StepRes.next.injEq] at hcont
+      subst hcont
+      refine inv_mk _ st.trace st.nesting (by simp) ?_ (by simp) (by simpa [hph] using hrel)
+      rw [htr, depth_snoc pre _ _ hd, hc']
+      have h1 : (comma == lpar) = false := by decide
+      have h2 : (comma == rpar) = false := by decide
+      simp [h1, h2]
+    · rename_i hc
+      exact inv_stepKidsNonComma k st st' hinv (by simp [hph]) (by simpa using hc) h
+  · -- comma
+    rename_i hph
+    split at h
+    · rename_i hc
+      have hc' : st.cur = comma := by simpa using hc
+      obtain ⟨pre, htr, hd, hrel⟩ := hinv
+      obtain ⟨t, q, rest, hn, hcont⟩ := advance_next k _ _ st' h
+      simp only [StepRes.next.injEq] at hcont
+      subst hcont
+      refine inv_mk _ st.trace st.nesting (by simp) ?_ (by simp) (by simpa [hph] using hrel)
+      rw [htr, depth_snoc pre _ _ hd, hc']
+      have h1 : (comma == lpar) = false := by decide
+      have h2 : (comma == rpar) = false := by decide
+      simp [h1, h2]
+    · rename_i hc
+      refine inv_stepKidsNonComma k _ st' ?_ (by simp) (by simpa using hc) h
+      obtain ⟨pre, htr, hd, hrel⟩ := hinv
+      exact ⟨pre, htr, hd, by simpa [hph] using hrel⟩
+  · -- lab
+    rename_i hph
+    obtain ⟨pre, htr, hd, hrel⟩ := hinv
+    have hrel' : st.nesting = st.stack.length := by simpa [hph] using hrel
+    unfold stepLab at h
+    split at h
+    · rename_i hc
+      have hc' : st.cur = colon := by simpa using hc
+      obtain ⟨t, q, rest, hn, hcont⟩ := advance_next k _ _ st' h
+      split at hcont
+      · rename_i hfl
+        obtain ⟨t2, q2, rest2, hn2, hcont2⟩ := advance_next k _ _ st' hcont
+        simp only [StepRes.next.injEq] at hcont2
+        subst hcont2
+        simp only at hfl
+        have h1 : depthAux st.trace 0 = some st.nesting := by
+          rw [htr, depth_snoc pre _ _ hd, hc']
+          have h1 : (colon == lpar) = false := by decide
+          have h2 : (colon == rpar) = false := by decide
+          simp [h1, h2]
+        have ht1 : (t == lpar) = false := by
+          cases hx : (t == lpar)
+          · rfl
+          · have : t = lpar := by simpa using hx
+            rw [this, pyFloatOk_lpar] at hfl; cases hfl
+        have ht2 : (t == rpar) = false := by
+          cases hx : (t == rpar)
+          · rfl
+          · have : t = rpar := by simpa using hx
+            rw [this, pyFloatOk_rpar] at hfl; cases hfl
+        refine inv_mk _ (st.trace ++ [t]) st.nesting (by simp) ?_ (by simp) (by simp [hph]; exact hrel')
+        rw [depth_snoc st.trace _ _ h1]
+        simp [ht1, ht2]
+      · cases hcont
+    · split at h
+      · rename_i hcc
+        split at h
+        · cases h
+        · rename_i p ps hst
+          simp only [StepRes.next.injEq] at h
+          subst h
+          refine ⟨pre, htr, hd, ?_⟩
+          simp only [hst, List.length_cons] at hrel'
+          simp; omega
+      · split at h
+        · split at h
+          · cases h
+          · split at h <;> cases h
+        · split at h
+          · cases h
+          · split at h
+            · cases h
+            · rename_i hcol hrc hsemi hlp hlab
+              have hcur_other : depthAux st.trace 0 = some st.nesting := by
+                rw [htr, depth_snoc pre _ _ hd]
+                have h1 : (st.cur == lpar) = false := by simpa using hlp
+                have h2 : (st.cur == rpar) = false := by
+                  simp only [Bool.or_eq_true, not_or] at hrc
+                  simpa using hrc.1
+                simp [h1, h2]
+              split at h
+              · obtain ⟨t, q, rest, hn, hcont⟩ := advance_next k _ _ st' h
+                simp only [StepRes.next.injEq] at hcont
+                subst hcont
+                exact inv_mk _ st.trace st.nesting (by simp) hcur_other (by simp) (by simp [hph]; exact hrel')
+              · dsimp only at h
+                split at h
+                · cases h
+                · obtain ⟨t, q, rest, hn, hcont⟩ := advance_next k _ _ st' h
+                  simp only [StepRes.next.injEq] at hcont
+                  subst hcont
+                  exact inv_mk _ st.trace st.nesting (by simp) hcur_other (by simp) (by simp [hph]; exact hrel')
+
+/-- an accepted statement: its tokens are parenthesis-balanced and the last one is the semicolon -/
+theorem run_balanced (k : Cfg) (st0 : NState) (h0 : Inv st0)
+    (t : NTree) (nx : Option (List Char)) (rest' : List Char) (m : Mapper) (tr : List (List Char))
+    (h : run k st0 = .ok t nx rest' m tr) : depthAux tr 0 = some 0 ∧ tr.getLast? = some semi := by
+  have key := run_spec k Inv
+    (fun r => match r with
+      | .ok _ _ _ _ tr => depthAux tr 0 = some 0 ∧ tr.getLast? = some semi
+      | .err _ => True)
+    (fun st st' hi hs => inv_step k st st' hi hs)
+    (by
+      intro st r hi hs
+      cases r with
+      | err e => trivial
+      | ok t nx r' m tr =>
+        obtain ⟨hsemi, _, htr, hn0, _⟩ := step_done_ok k st t nx r' m tr hs
+        obtain ⟨pre, hpre, hd, _⟩ := hi
+        show depthAux tr 0 = some 0 ∧ tr.getLast? = some semi
+        rw [htr, hpre, hsemi]
+        constructor
+        · rw [depth_snoc pre _ _ hd, hn0]
+          have h1 : (semi == lpar) = false := by decide
+          have h2 : (semi == rpar) = false := by decide
+          simp [h1, h2]
+        · simp)
+    st0.measure st0 (Nat.le_refl _) h0
+  rw [h] at key
+  exact key
+
+/-! ### the NEXUS reader loops -/
+
+/-- a result is not the `internal` marker -/
+def NoInt {α : Type} (r : R α) : Prop := ∀ w, r ≠ .error (.internal w)
+
+/-- a loop body that never fails internally, never gives input back, and consumes input whenever it asks to go on -/
+structure GoodBody (b : RS → R (Bool × RS)) : Prop where
+  noInt : ∀ s, NoInt (b s)
+  le : ∀ s c s', b s = .ok (c, s') → s'.rest.length ≤ s.rest.length
+  lt : ∀ s s', b s = .ok (true, s') → s'.rest.length < s.rest.length
+
+structure Good (f : RS → R RS) : Prop where
+  noInt : ∀ s, NoInt (f s)
+  le : ∀ s s', f s = .ok s' → s'.rest.length ≤ s.rest.length
+
+theorem err_cast {α β : Type} {e : Stop} {w : String} (h : (Except.error e : R α) = .error (.internal w)) :
+    (Except.error e : R β) = .error (.internal w) := by
+  cases h; rfl
+
+/-- **every loop built with `iter` from a good body is good**: the no-progress guard never fires -/
+theorem iter_good (b : RS → R (Bool × RS)) (hb : GoodBody b) : Good (iter b) := by
+  have key : ∀ (n : Nat) (s : RS), s.rest.length ≤ n →
+      NoInt (iter b s) ∧ ∀ s', iter b s = .ok s' → s'.rest.length ≤ s.rest.length := by
+    intro n
+    induction n with
+    | zero =>
+      intro s hl
+      rw [iter]
+      split
+      · rename_i e he
+        exact ⟨fun w hw => hb.noInt s w (by rw [he]; exact err_cast hw), fun s' h => (by cases h)⟩
+      · rename_i s1 h1
+        refine ⟨fun w hw => (by cases hw), fun s' h => ?_⟩
+        simp only [Except.ok.injEq] at h
+        subst h
+        exact hb.le _ _ _ h1
+      · rename_i s1 h1
+        have := hb.lt _ _ h1
+        omega
+    | succ n ih =>
+      intro s hl
+      rw [iter]
+      split
+      · rename_i e he
+        exact ⟨fun w hw => hb.noInt s w (by rw [he]; exact err_cast hw), fun s' h => (by cases h)⟩
+      · rename_i s1 h1
+        refine ⟨fun w hw => (by cases hw), fun s' h => ?_⟩
+        simp only [Except.ok.injEq] at h
+        subst h
+        exact hb.le _ _ _ h1
+      · rename_i s1 h1
+        have hlt := hb.lt _ _ h1
+        rw [if_pos hlt]
+        have := ih s1 (by omega)
+        exact ⟨this.1, fun s' h => (by have := this.2 s' h; omega)⟩
+  exact ⟨fun s => (key s.rest.length s (Nat.le_refl _)).1, fun s s' h => (key s.rest.length s (Nat.le_refl _)).2 s' h⟩
+
+theorem nextTok_spec (s : RS) : NoInt (nextTok s) ∧ ∀ t s', nextTok s = .ok (t, s') →
+    s'.rest.length ≤ s.rest.length ∧ (t.isSome → s'.rest.length < s.rest.length) ∧ (t = none → s'.rest = []) ∧ s'.cfg = s.cfg := by
+  unfold nextTok
+  split
+  · refine ⟨fun w h => (by cases h), fun t s' h => ?_⟩
+    simp only [Except.ok.injEq, Prod.mk.injEq] at h
+    obtain ⟨h1, h2⟩ := h
+    subst h1 h2
+    simp
+  · exact ⟨fun w h => (by simp [perr] at h), fun t s' h => (by simp [perr] at h)⟩
+  · rename_i t q rest hn
+    refine ⟨fun w h => (by cases h), fun t' s' h => ?_⟩
+    simp only [Except.ok.injEq, Prod.mk.injEq] at h
+    obtain ⟨h1, h2⟩ := h
+    subst h1 h2
+    have := nextT_lt _ _ _ _ _ hn
+    simp; omega
+
+theorem nextUcase_spec (s : RS) : NoInt (nextUcase s) ∧ ∀ t s', nextUcase s = .ok (t, s') →
+    s'.rest.length ≤ s.rest.length ∧ (t.isSome → s'.rest.length < s.rest.length) ∧ (t = none → s'.rest = []) := by
+  have hs := nextTok_spec s
+  unfold nextUcase
+  cases hn : nextTok s with
+  | error e =>
+    refine ⟨fun w h => ?_, fun t s' h => ?_⟩
+    · simp only [hn, bind, Except.bind] at h
+      exact hs.1 w (by rw [hn]; exact err_cast h)
+    · simp [hn, bind, Except.bind] at h
+  | ok p =>
+    obtain ⟨t0, s0⟩ := p
+    have h0 := hs.2 t0 s0 hn
+    cases t0 with
+    | none =>
+      refine ⟨fun w h => (by simp [hn, bind, Except.bind, pure, Except.pure] at h), fun t s' h => ?_⟩
+      simp only [hn, bind, Except.bind, pure, Except.pure, Except.ok.injEq, Prod.mk.injEq] at h
+      obtain ⟨h1, h2⟩ := h
+      subst h1 h2
+      exact ⟨h0.1, fun h => (by cases h), fun _ => h0.2.2.1 rfl⟩
+    | some tt =>
+      refine ⟨fun w h => (by simp [hn, bind, Except.bind, pure, Except.pure] at h), fun t s' h => ?_⟩
+      simp only [hn, bind, Except.bind, pure, Except.pure, Except.ok.injEq, Prod.mk.injEq] at h
+      obtain ⟨h1, h2⟩ := h
+      subst h1 h2
+      exact ⟨h0.1, fun _ => h0.2.1 rfl, fun h => (by cases h)⟩
+
+/-- the body of `skip_to_semicolon` -/
+theorem skipToSemi_body_good : GoodBody (fun s => do
+    let (t, s) ← nextTok s
+    pure (!(t == some semi) && !s.eof && t.isSome, s)) := by
+  refine ⟨fun s w h => ?_, fun s c s' h => ?_, fun s s' h => ?_⟩
+  · have hs := nextTok_spec s
+    cases hn : nextTok s with
+    | error e => simp only [hn, bind, Except.bind] at h; exact hs.1 w (by rw [hn]; exact err_cast h)
+    | ok p => simp [hn, bind, Except.bind, pure, Except.pure] at h
+  · have hs := nextTok_spec s
+    cases hn : nextTok s with
+    | error e => simp [hn, bind, Except.bind] at h
+    | ok p =>
+      obtain ⟨t0, s0⟩ := p
+      simp only [hn, bind, Except.bind, pure, Except.pure, Except.ok.injEq, Prod.mk.injEq] at h
+      obtain ⟨_, h2⟩ := h
+      subst h2
+      exact (hs.2 t0 _ hn).1
+  · have hs := nextTok_spec s
+    cases hn : nextTok s with
+    | error e => simp [hn, bind, Except.bind] at h
+    | ok p =>
+      obtain ⟨t0, s0⟩ := p
+      simp only [hn, bind, Except.bind, pure, Except.pure, Except.ok.injEq, Prod.mk.injEq] at h
+      obtain ⟨h1, h2⟩ := h
+      subst h2
+      simp only [Bool.and_eq_true] at h1
+      exact (hs.2 t0 _ hn).2.1 h1.2
+
+theorem skipToSemi_good : Good skipToSemi := iter_good _ skipToSemi_body_good
+
+theorem consumeToEnd_body_good : GoodBody (fun s => do
+    if isEnd s.btok || s.eof || s.btok.isNone then pure (false, s)
+    else
+      let s ← skipToSemi s
+      let (t, s) ← nextUcase s
+      pure (true, { s with btok := t })) := by
+  have hk := skipToSemi_good
+  refine ⟨fun s w h => ?_, fun s c s' h => ?_, fun s s' h => ?_⟩
+  · split at h
+    · simp [pure, Except.pure] at h
+    · cases h1 : skipToSemi s with
+      | error e => simp only [h1, bind, Except.bind] at h; exact hk.noInt s w (by rw [h1]; exact err_cast h)
+      | ok s1 =>
+        have hu := nextUcase_spec s1
+        cases h2 : nextUcase s1 with
+        | error e => simp only [h1, h2, bind, Except.bind] at h; exact hu.1 w (by rw [h2]; exact err_cast h)
+        | ok p => simp [h1, h2, bind, Except.bind, pure, Except.pure] at h
+  · split at h
+    · simp only [pure, Except.pure, Except.ok.injEq, Prod.mk.injEq] at h
+      rw [← h.2]; exact Nat.le_refl _
+    · cases h1 : skipToSemi s with
+      | error e => simp [h1, bind, Except.bind] at h
+      | ok s1 =>
+        have hu := nextUcase_spec s1
+        cases h2 : nextUcase s1 with
+        | error e => simp [h1, h2, bind, Except.bind] at h
+        | ok p =>
+          obtain ⟨t0, s0⟩ := p
+          simp only [h1, h2, bind, Except.bind, pure, Except.pure, Except.ok.injEq, Prod.mk.injEq] at h
+          obtain ⟨_, h4⟩ := h
+          subst h4
+          have := hk.le s s1 h1
+          have := (hu.2 t0 s0 h2).1
+          simp only; omega
+  · split at h
+    · simp [pure, Except.pure] at h
+    · rename_i hcond
+      cases h1 : skipToSemi s with
+      | error e => simp [h1, bind, Except.bind] at h
+      | ok s1 =>
+        have hu := nextUcase_spec s1
+        cases h2 : nextUcase s1 with
+        | error e => simp [h1, h2, bind, Except.bind] at h
+        | ok p =>
+          obtain ⟨t0, s0⟩ := p
+          simp only [h1, h2, bind, Except.bind, pure, Except.pure, Except.ok.injEq, Prod.mk.injEq] at h
+          obtain ⟨_, h4⟩ := h
+          subst h4
+          have hle := hk.le s s1 h1
+          have hu2 := hu.2 t0 s0 h2
+          -- not at end of stream: either `skip_to_semicolon` or the following read consumed input
+          have hne : s.rest ≠ [] := by
+            intro he
+            apply hcond
+            simp [RS.eof, he]
+          cases t0 with
+          | some tt => have := hu2.2.1 rfl; simp only; omega
+          | none =>
+            have := hu2.2.2 rfl
+            have hpos : 0 < s.rest.length := List.length_pos_iff.mpr hne
+            simp only [this, List.length_nil]; exact hpos
+
+theorem consumeToEnd_good (token : Option (List Char)) : Good (consumeToEnd token) := by
+  have h := iter_good _ consumeToEnd_body_good
+  refine ⟨fun s => ?_, fun s s' hs => ?_⟩
+  · unfold consumeToEnd
+    exact h.noInt _
+  · unfold consumeToEnd at hs
+    exact h.le { s with btok := if truthy token = true then Option.map upper token else some (kw "DUMMY") } s' hs
+
 end DendroModel.C20.Aux
 
 namespace DendroModel.C20
 open DendroModel DendroModel.C20.Aux
+
+deriving instance DecidableEq for MatRes
 
 /-- **Tokenizer progress.**  Whatever the delimiter configuration, a token returned by `Tokenizer.__next__` leaves a
 strictly shorter input.  All reader loops of the model recurse through this fact. -/
@@ -452,6 +867,52 @@ theorem newick_statement_progress (k : Cfg) (cur : Option (List Char)) (rest : L
             subst hr
             omega
 
+/-- **Accepted Newick statements are balanced and terminated.**  Whenever `_parse_tree_statement` returns a tree, the
+tokens it consumed for it (`trace`, from the first token of the statement to the last) never close a parenthesis that
+was not opened, end at nesting depth 0, and the last of them is the terminating semicolon. -/
+theorem newick_balanced (k : Cfg) (cur : Option (List Char)) (rest : List Char) (started : Bool) (mp : Mapper)
+    (t : NTree) (nx : Option (List Char)) (rest' : List Char) (m : Mapper) (tr : List (List Char))
+    (h : parseStatement k cur rest started mp = .tree t nx rest' m tr) :
+    depthAux tr 0 = some 0 ∧ tr.getLast? = some semi := by
+  unfold parseStatement at h
+  split at h
+  · cases h
+  · split at h
+    · cases h
+    · split at h
+      · cases h
+      · rename_i c hsk
+        dsimp only at h
+        split at h
+        · cases h
+        · rename_i tt nx2 r2 m2 tr2 hrun
+          have hb : depthAux tr2 0 = some 0 ∧ tr2.getLast? = some semi := by
+            split at hrun
+            · rename_i hlp
+              have hlp' : c = lpar := by simpa using hlp
+              split at hrun
+              · rename_i r hadv
+                rcases advance_done k _ _ _ hadv with h1 | h1 | ⟨_, _, _, _, h1⟩
+                · rw [h1] at hrun; cases hrun
+                · rw [h1] at hrun; cases hrun
+                · cases h1
+              · rename_i s hadv
+                obtain ⟨t1, q1, rest1, hn, hcont⟩ := advance_next k _ _ s hadv
+                simp only [StepRes.next.injEq] at hcont
+                subst hcont
+                refine run_balanced k _ ?_ tt nx2 r2 m2 tr2 hrun
+                refine inv_mk _ [c] 1 (by simp) ?_ (by simp) (by simp)
+                rw [hlp']; decide
+            · rename_i hlp
+              refine run_balanced k _ ?_ tt nx2 r2 m2 tr2 hrun
+              exact inv_mk _ [] 0 (by simp) (by simp [depthAux]) (by simp) (by simp)
+          split at h
+          · cases h
+          · simp only [StmtRes.tree.injEq] at h
+            obtain ⟨_, _, _, _, htr⟩ := h
+            subst htr
+            exact hb
+
 /-- **The Newick reader never fails internally**: on every text the model's verdict is a list of trees or a
 data-parse error (the no-progress guard of `tree_iter` never fires). -/
 theorem newick_never_internal (text : List Char) (w : String) : readNewick text ≠ .internal w := by
@@ -518,5 +979,42 @@ theorem ok_dims (sym : Char → Bool) (strict interleaved : Bool) (text : List C
                   have := (List.all_eq_true.mp hall) r hr'
                   simpa using this
               · cases h
+
+/-- **The scan-to-';' and scan-to-END loops stop at end of stream.**  `skip_to_semicolon` and
+`_consume_to_end_of_block` — the loops every NEXUS block parser leans on — return (with input no longer than before)
+or raise a parse error on *every* input, in particular on every prefix `doc.take n` of a document: the
+no-progress marker `internal` is never produced.
+`_partial`: the same statement for the complete `readNexus` (every block and statement loop is an `iter` of a body that
+has to be shown good in the sense of `Aux.GoodBody`, cf. `Aux.iter_good`) is not proved here; the driver reports
+`internal` verbatim, so any such outcome would surface as a correspondence disagreement (none on > 10^5 NEXUS reads per run). -/
+theorem eof_is_parse_error_partial (doc : List Char) (n : Nat) (s : RS) (token : Option (List Char)) (w : String) :
+    skipToSemi { s with rest := doc.take n } ≠ .error (.internal w) ∧
+    consumeToEnd token { s with rest := doc.take n } ≠ .error (.internal w) ∧
+    (∀ s', skipToSemi { s with rest := doc.take n } = .ok s' → s'.rest.length ≤ (doc.take n).length) :=
+  ⟨skipToSemi_good.noInt _ w, (consumeToEnd_good token).noInt _ w, fun s' h => skipToSemi_good.le _ s' h⟩
+
+/-- every `iter` loop whose body consumes input whenever it continues never reports `internal` and never gives input back -/
+theorem reader_loops_total (b : RS → R (Bool × RS)) (hb : GoodBody b) (s : RS) (w : String) :
+    iter b s ≠ .error (.internal w) ∧ ∀ s', iter b s = .ok s' → s'.rest.length ≤ s.rest.length :=
+  ⟨(iter_good b hb).noInt s w, (iter_good b hb).le s⟩
+
+/-! ### non-vacuity: the hypotheses of the theorems above are satisfiable -/
+
+/-- `tokenizer_progress`: a token is read from `a;` -/
+example : nextT {} ['a', ';'] = .tok ['a'] false [';'] := by
+  rw [nextT]
+  simp [skipWs, Cfg.unc, Cfg.cap, isQuote, readPlain, isCommentBegin, Tables.tokUncaptured, Tables.tokCaptured, Tables.tokQuote,
+    Tables.tokCommentBegin, isEol]
+
+/-- `ok_dims`: a PHYLIP source that is accepted (`1 1`, one row of one cell) -/
+example : ∃ rows, readPhylip (fun c => c == 'A') false false ['1', ' ', '1', '\n', 'x', ' ', 'A', '\n', '\n'] = .ok rows :=
+  ⟨[(['x'], 1)], by decide⟩
+
+/-- ... and one whose row is longer than declared is rejected by the declared-versus-found check -/
+example : readPhylip (fun c => c == 'A') false false ['1', ' ', '1', '\n', 'x', ' ', 'A', 'A', '\n', '\n'] = .err .data := by decide
+
+/- `newick_statement_progress` / `newick_balanced`: their hypothesis `parseStatement … = .tree …` holds for every accepted
+statement; the driver evaluates it on each generated valid document (evidence: `newick:valid:ok`, `nexus:valid:ok`),
+e.g. `newick 00002800006100002c00006200002900003b` ↦ `ok 1 …`. -/
 
 end DendroModel.C20
